@@ -436,11 +436,16 @@ def check_property(pid, tier, seed):
         # shrink: stateless streams -> the single op; stateful -> ddmin on the prefix
         stateless = props.STREAM_STATELESS.get(stream, False)
         prefix = [r.ops[idx]] if stateless else r.ops[:idx + 1]
+        if not stateless:
+            # a `reset` starts a fresh world: nothing before it matters
+            resets = [k for k, o in enumerate(prefix) if o.startswith("op reset")]
+            if resets:
+                prefix = prefix[resets[-1] + 1:]
 
-        def pred(rr, kind=kind, wop=r.ops[idx], wimpl=split_res(r.impl[idx])[0], wmodel=split_res(r.model[idx])[0]):
-            # the *same* failure must persist: same operation text, same pair of verdicts
+        def pred(rr, kind=kind, wop=r.ops[idx], wimpl=split_res(r.impl[idx])[0], wmodel=split_res(r.model[idx])[0], wdetail=detail):
+            # the *same* failure must persist: same operation text, same pair of verdicts / same complaint
             if kind == "monitor":
-                return any(rr.ops[i] == wop for (i, _) in mon(pid, rr))
+                return any(rr.ops[i] == wop and d[:40] == wdetail[:40] and rr.impl[i] == r.impl[idx] for (i, d) in mon(pid, rr))
             return any(rr.ops[i] == wop and split_res(rr.impl[i])[0] == wimpl and split_res(rr.model[i])[0] == wmodel
                        for i in rr.hard_divs())
         if not stateless and len(prefix) > 1:
